@@ -2,10 +2,11 @@
 
 A case = (waiter kind, plain generate_events handler yes/no, events per firing thread, a schedule).
 The REAL Manager.run() runs in a real thread, N real threads call fire(); every thread is stopped
-before each source line of the functions of the wake-up protocol (sys.monitoring LINE events) and
-before each operation on the RLock / threading.Event / select / control pipe (scheduler-aware doubles
-installed as module globals), and a scheduler in the checking thread decides which thread performs
-its next step.  The sequence of visible steps is replayed by Model/Wake.v (`accepts`), the oracle
+just before each access to the shared state of the wake-up protocol (data descriptors / wrappers installed
+from here on Manager._currently_handling, generate_events._time_left / handler / reduce_time_left, the
+root's event queue object and its deque) and before each operation on the RLock / threading.Event /
+select / control pipe (scheduler-aware doubles installed as module globals), and a scheduler in the
+checking thread decides which thread performs its next step.  Nothing depends on source lines.  The sequence of visible steps is replayed by Model/Wake.v (`accepts`), the oracle
 looks for a lost wake-up (loop parked in its idle wait, a returned fire()'s event still queued, no
 thread enabled) and checks exactly-once / per-thread order on the handler log.
 """
@@ -29,8 +30,6 @@ from circuits import BaseComponent, Event, handler
 
 REAL_RLOCK = threading.RLock
 REAL_EVENT = threading.Event
-MON = sys.monitoring
-TOOL = 3
 MAX_STEPS = 6000
 
 CUR = None      # the scheduler of the case being run (None: everything behaves like the real primitives)
@@ -52,6 +51,10 @@ class Ctl:
         self.forced = False
         self.fire_returned = 0     # number of fire() calls that have returned (firing threads)
         self.vis = 0               # visible actions emitted so far
+        self.in_reduce, self.red_tl, self.red_hd = False, 0, 0
+        self.in_disp = self.in_qlen = self.locks = 0
+        self.len_quiet = False
+        self.in_qapp, self.ctr_reads = False, 0
 
 
 class Sched:
@@ -121,6 +124,9 @@ class SLock:
                 self._mx.wait(0.05)
             self.owner = ident
             self.depth += 1
+        c = s.ctl.get(ident) if s is not None else None
+        if c is not None:
+            c.locks += 1
         return True
 
     def release(self):
@@ -134,6 +140,9 @@ class SLock:
             if self.depth == 0:
                 self.owner = None
                 self._mx.notify_all()
+        c = s.ctl.get(threading.get_ident()) if s is not None else None
+        if c is not None:
+            c.locks -= 1
 
     __enter__ = acquire
 
@@ -270,7 +279,29 @@ class FakeSelect:
         return FakePollObj(real_select.epoll(*a, **kw), True)
 
 
-# ------------------------------------------------------------------------------------------- anchors
+# ------------------------------------------------------------------------------------------- access hooks
+#
+# Visible actions are derived from the shared-state ACCESSES themselves, not from source lines:
+#   Manager._currently_handling                 data descriptor on the class        -> SetH / Clr / FReadH
+#   generate_events._time_left, .handler        data descriptors on the class       -> RdTl / RWrite / SetHd / RHd / RGet
+#   generate_events.reduce_time_left            wrapper (dynamic extent, per thread)
+#   the root's event queue object (Manager()._queue): its append / __len__ / dispatchEvents are wrapped and its
+#   deque is replaced by a reporting deque subclass                                  -> Count / App* / Snap / Move /
+#                                                                                       ArmTest / Call
+#   RLock / threading.Event / select module / os (control pipe): the doubles above   -> Acq / Rel / Sig / Clear / Wait /
+#                                                                                       Select / PipeRd
+# Every reporting hook parks the thread just before the access: these are the pre-emption points.
+# Relied upon names: _currently_handling, _queue (of the manager), append / __len__ / dispatchEvents of the queue
+# object, generate_events._time_left / handler / reduce_time_left, resume.  Not relied upon: helper functions, local
+# names, line positions, the attribute holding the fallback generator's Event, the queue's private attributes.
+
+import collections
+
+MISSING = []
+_INSTALLED = False
+CALIB = None            # counting mode used once by install(): number of reads of .handler on the resume path
+HD_READS = [0]
+
 
 def _sign(t):
     return 'Neg' if t < 0 else ('Zero' if t == 0 else 'Pos')
@@ -292,125 +323,259 @@ def _ev_id(s, e):
     return ['O', o]
 
 
-def lab_append(s, f):
-    e = f.f_locals.get('event')
-    i = _ev_id(s, e)
-    if i[0] == 'G':
-        return ['AppG', _sign(e._time_left)]
-    return ['AppF'] if i[0] == 'F' else ['AppO']
+def _ctl():
+    """(scheduler, control block) of the calling thread if it is a controlled thread of the running case"""
+    s = CUR
+    if s is None or s.free:
+        return None, None
+    c = s.ctl.get(threading.get_ident())
+    if c is None:
+        return None, None
+    return s, c
 
 
-def lab_call(s, f):
-    return ['Call', _ev_id(s, f.f_locals.get('event'))]
+def _visible(lab, kind='access'):
+    """park just before a shared access, then record it"""
+    s, c = _ctl()
+    if c is None:
+        return
+    if s.park(kind) and lab is not None:
+        s.emit(lab)
 
 
-def lab_sethd(s, f):
-    e = f.f_locals.get('event')
-    if not isinstance(e, cevents.generate_events):
-        return None
-    h = f.f_locals.get('event_handler')
-    m = getattr(getattr(h, '__self__', None), 'resume', None)
-    return ['SetHd', 'HWake' if inspect.ismethod(m) else 'HPlain']
+_NOVAL = object()
 
 
-def lab_rhd(s, f):
-    return ['RHd'] if f.f_locals.get('time_left') == 0 else None
+class Tracked:
+    """data descriptor standing in for a plain attribute; the value lives in the instance (dict or the slot it wraps)"""
+
+    def __init__(self, name, on_read, on_write, inner=None):
+        self.name, self.on_read, self.on_write, self.inner = name, on_read, on_write, inner
+        self.key = '_c03_' + name
+
+    def _get(self, obj):
+        if self.inner is not None:
+            try:
+                return self.inner.__get__(obj, type(obj))
+            except AttributeError:
+                return _NOVAL
+        return obj.__dict__.get(self.key, _NOVAL)
+
+    def _value(self, obj):
+        v = self._get(obj)
+        if v is _NOVAL:
+            if self.default is _NOVAL:
+                raise AttributeError(self.name)
+            v = self.default
+        return v
+
+    def __get__(self, obj, typ=None):
+        if obj is None:
+            return self
+        self.on_read(obj, self)          # may park: the value is fetched afterwards, when the thread runs again
+        return self._value(obj)
+
+    def __set__(self, obj, value):
+        self.on_write(obj, self._get(obj), value)
+        if self.inner is not None:
+            self.inner.__set__(obj, value)
+        else:
+            obj.__dict__[self.key] = value
+
+    default = _NOVAL
 
 
-def const(l):
-    return lambda s, f: l
+# ---- Manager._currently_handling
+def _handling_read(obj, d):
+    s, c = _ctl()
+    if c is not None and c.idx != 0:
+        _visible(['FReadH'])           # the loop thread's reads of its own variable are not shared accesses
 
 
-# per function: list of (regex on the stripped source line, label function, required?)
-ANCHORS = {
-    'append': [
-        (r'^self\._counter\s*(\+= 1|= self\._counter \+ 1)$', const(['Count']), True),
-        (r'^self\._queue\.append\(\(', lab_append, True),
-    ],
-    'dispatchEvents': [
-        (r'=\s*len\(self\._queue\)$', const(['Snap']), True),
-        (r'self\._queue\.popleft\(\)', const(['Move']), True),
-        (r'^dispatcher\(', lab_call, True),
-    ],
-    '_fire': [
-        (r'= self\._currently_handling$', const(['FReadH']), True),
-    ],
-    '_dispatcher': [
-        (r'^self\._currently_handling = event$', const(['SetH']), True),
-        (r'^self\._currently_handling = None$', const(['Clr']), True),
-        (r'^if remaining > 0\b', const(['ArmTest']), True),
-        (r'^event\.handler = event_handler$', lab_sethd, True),
-    ],
-    'reduce_time_left': [
-        (r'^if time_left >= 0', const(['RTest']), True),
-        (r'^self\._time_left = time_left$', const(['RWrite']), True),
-        (r'^if self\._time_left == 0 and self\.handler', lab_rhd, True),
-        (r'^self\.handler\.__self__,$', const(['RGet']), True),
-    ],
-    'fallback': [
-        (r'^if event\.time_left == 0:$', const(['WTest']), True),
-        (r'^if event\.time_left > 0:$', const(['WTestPos']), True),
-        (r'^self\._continue\.wait\(event\.time_left\)$', const(['WRdTl']), True),
-        (r'^while event\.time_left < 0:$', const(['WTestNeg']), True),
-    ],
-    'poller_generate': [
-        (r'^timeout = event\.time_left$', const(['PRead']), True),
-    ],
-}
+def _handling_write(obj, old, v):
+    _visible(['Clr'] if v is None else ['SetH'])
 
 
-def _code_of(fn):
-    fn = getattr(fn, '__func__', fn)
-    fn = getattr(fn, '__wrapped__', fn)
-    return fn.__code__
+# ---- generate_events._time_left / .handler, inside and outside reduce_time_left
+def _tl_read(obj, d):
+    global CALIB
+    s, c = _ctl()
+    if c is None:
+        return
+    if c.in_reduce:
+        c.red_tl += 1
+        if c.red_tl > 1:
+            return                      # further reads by the lock holder cannot see another value
+    _visible(['RdTl'])
 
 
-def instrumented():
-    """[(anchor table name, code object)] of the functions whose lines are scheduling points"""
-    out = [
-        ('append', _code_of(cmanager._EventQueue.append)),
-        ('dispatchEvents', _code_of(cmanager._EventQueue.dispatchEvents)),
-        ('_fire', _code_of(cmanager.Manager._fire)),
-        ('_dispatcher', _code_of(cmanager.Manager._dispatcher)),
-        ('reduce_time_left', _code_of(cevents.generate_events.reduce_time_left)),
-        ('fallback', _code_of(chelpers.FallBackGenerator._on_generate_events)),
-        (None, _code_of(chelpers.FallBackGenerator.resume)),
-        (None, _code_of(cpollers.BasePoller._on_generate_events)),
-        (None, _code_of(cpollers.BasePoller.resume)),
-        (None, _code_of(cpollers.BasePoller._read_ctrl)),
-        ('poller_generate', _code_of(cpollers.Select._generate_events)),
-        ('poller_generate', _code_of(cpollers.Poll._generate_events)),
-        ('poller_generate', _code_of(cpollers.EPoll._generate_events)),
-        (None, _code_of(cpollers.Poll._process)),
-        (None, _code_of(cpollers.EPoll._process)),
-    ]
-    return out
+def _tl_write(obj, old, v):
+    if old is _NOVAL:
+        return                          # construction
+    _visible(['RWrite'])
 
 
-LINEMAP = {}        # (code, lineno) -> label function
-MISSING = []
-_INSTALLED = False
+def _hd_read(obj, d):
+    if CALIB is not None:
+        CALIB[0] += 1
+        return
+    s, c = _ctl()
+    if c is None or not c.in_reduce:
+        return
+    c.red_hd += 1
+    n = HD_READS[0]
+    if c.red_hd == 1:
+        _visible(['RHd'])
+        if n == 1 and d._value(obj) is not None:
+            s.emit(['RGet'])            # one read serves both tests
+    elif c.red_hd == n:
+        _visible(['RGet'])              # the read whose value is used to look up resume()
+    else:
+        _visible(None)
+
+
+def _hd_write(obj, old, v):
+    if v is None or not isinstance(obj, cevents.generate_events):
+        return
+    m = getattr(getattr(v, '__self__', None), 'resume', None)
+    _visible(['SetHd', 'HWake' if inspect.ismethod(m) else 'HPlain'])
+
+
+def _wrap_reduce(orig):
+    def reduce_time_left(self, time_left):
+        s, c = _ctl()
+        if c is None:
+            return orig(self, time_left)
+        saved = (c.in_reduce, c.red_tl, c.red_hd)
+        c.in_reduce, c.red_tl, c.red_hd = True, 0, 0
+        try:
+            return orig(self, time_left)
+        finally:
+            c.in_reduce, c.red_tl, c.red_hd = saved
+    reduce_time_left.__wrapped__ = orig
+    return reduce_time_left
+
+
+# ---- the event queue object
+class TDeque(collections.deque):
+    """the queue's deque: reports append / popleft / len"""
+
+    def append(self, item):
+        s, c = _ctl()
+        if c is not None:
+            e = item[2][0]
+            i = _ev_id(s, e)
+            if i[0] == 'G':
+                tl = e.__dict__.get('_c03__time_left', _NOVAL)
+                if tl is _NOVAL:
+                    tl = cevents.generate_events.__dict__['_time_left']._get(e)
+                lab = ['AppG', _sign(tl)]
+            else:
+                lab = ['AppF'] if i[0] == 'F' else ['AppO']
+            if c.in_qapp and COUNTER[0]:
+                s.emit(lab)             # same step as the read of the counter that numbered the entry
+            else:
+                _visible(lab)
+        collections.deque.append(self, item)
+
+    def popleft(self):
+        _visible(['Move'])
+        return collections.deque.popleft(self)
+
+    def __len__(self):
+        s, c = _ctl()
+        if c is not None and c.idx == 0 and not c.len_quiet:
+            if c.in_qlen:
+                # total length of the queue read by the loop: the arming test reads it under the lock
+                _visible(['ArmTest'] if c.locks > 0 else None)
+            elif c.in_disp:
+                _visible(['Snap'])
+        return collections.deque.__len__(self)
+
+
+COUNTER = [None]        # name of the queue object's counter attribute, found by install()
+
+
+def _ctr_read(obj, d):
+    s, c = _ctl()
+    if c is not None and c.in_qapp:
+        c.ctr_reads += 1
+        if c.ctr_reads <= 2:
+            _visible(None)              # before `counter += 1` and before the entry is built: pre-emption points
+
+
+def _ctr_write(obj, old, v):
+    s, c = _ctl()
+    if c is not None and c.in_qapp and old is not _NOVAL:
+        s.emit(['Count'])               # same step as the read it is computed from
+
+
+def _wrap_qappend(orig):
+    def append(self, *a, **k):
+        s, c = _ctl()
+        if c is None:
+            return orig(self, *a, **k)
+        if not COUNTER[0]:
+            _visible(['Count'])         # counter attribute not identified: count + append form one step
+        saved = (c.in_qapp, c.ctr_reads)
+        c.in_qapp, c.ctr_reads = True, 0
+        try:
+            return orig(self, *a, **k)
+        finally:
+            c.in_qapp, c.ctr_reads = saved
+    append.__wrapped__ = orig
+    return append
+
+
+def _wrap_qlen(orig):
+    def __len__(self):
+        s, c = _ctl()
+        if c is None:
+            return orig(self)
+        c.in_qlen += 1
+        try:
+            return orig(self)
+        finally:
+            c.in_qlen -= 1
+    __len__.__wrapped__ = orig
+    return __len__
+
+
+def _wrap_dispatch(orig):
+    def dispatchEvents(self, dispatcher):
+        s, c = _ctl()
+        if c is None:
+            return orig(self, dispatcher)
+
+        def handed(event, *a, **k):
+            c.in_disp -= 1
+            try:
+                _visible(['Call', _ev_id(s, event)])
+                return dispatcher(event, *a, **k)
+            finally:
+                c.in_disp += 1
+        c.in_disp += 1
+        try:
+            return orig(self, handed)
+        finally:
+            c.in_disp -= 1
+    dispatchEvents.__wrapped__ = orig
+    return dispatchEvents
+
+
+def _deque_attr(q):
+    names = list(getattr(type(q), '__slots__', ())) + list(getattr(q, '__dict__', {}))
+    return [n for n in names if isinstance(getattr(q, n, None), collections.deque)]
 
 
 def install():
-    """instrument the protocol functions and install the doubles (module globals only; no source change)"""
-    global _INSTALLED
+    """install the access hooks and the doubles (class attributes / module globals only; no source change)"""
+    global _INSTALLED, CALIB
     if _INSTALLED:
         return
     _INSTALLED = True
-    for name, code in instrumented():
-        if name is not None:
-            try:
-                lines, start = inspect.getsourcelines(code)
-            except OSError:
-                MISSING.append('%s: no source' % name)
-                lines, start = [], 0
-            for pat, fn, req in ANCHORS[name]:
-                hits = [start + i for i, l in enumerate(lines) if re.search(pat, l.strip())]
-                if not hits and req:
-                    MISSING.append('%s: %s' % (code.co_qualname, pat))
-                for h in hits:
-                    LINEMAP[(code, h)] = fn
+    M, G = cmanager.Manager, cevents.generate_events
+    # doubles
     cmanager.RLock = SLock
     chelpers.Event = SEvent
     cpollers.select = FakeSelect()
@@ -421,33 +586,81 @@ def install():
         def register(*a, **k):
             return None
     cmanager.atexit = _NoAtexit
-    MON.use_tool_id(TOOL, 'c03')
-    MON.register_callback(TOOL, MON.events.LINE, on_line)
-    for _, code in instrumented():
-        MON.set_local_events(TOOL, code, MON.events.LINE)
+    # _currently_handling
+    if '_currently_handling' not in M.__dict__:
+        MISSING.append('Manager._currently_handling')
+    t = Tracked('_currently_handling', _handling_read, _handling_write)
+    t.default = M.__dict__.get('_currently_handling', None)
+    M._currently_handling = t
+    # generate_events
+    for name, rd, wr in (('_time_left', _tl_read, _tl_write), ('handler', _hd_read, _hd_write)):
+        inner = G.__dict__.get(name)
+        inner = inner if hasattr(inner, '__set__') and not isinstance(inner, property) else None
+        setattr(G, name, Tracked(name, rd, wr, inner))
+    if not callable(G.__dict__.get('reduce_time_left')):
+        MISSING.append('generate_events.reduce_time_left')
+    else:
+        G.reduce_time_left = _wrap_reduce(G.__dict__['reduce_time_left'])
+    if not isinstance(G.__dict__.get('time_left'), property):
+        MISSING.append('generate_events.time_left')
+    # the queue class of the root manager
+    q = M()._queue
+    Q = type(q)
+    for name, wrap in (('append', _wrap_qappend), ('__len__', _wrap_qlen), ('dispatchEvents', _wrap_dispatch)):
+        if not callable(Q.__dict__.get(name)):
+            MISSING.append('%s.%s' % (Q.__name__, name))
+        else:
+            setattr(Q, name, wrap(Q.__dict__[name]))
+    if len(_deque_attr(q)) != 1:
+        MISSING.append('%s: exactly one deque attribute expected, found %r' % (Q.__name__, _deque_attr(q)))
+    else:
+        # the counter that numbers the entries: the int attribute equal to the number stored in the second entry
+        try:
+            q2 = Q()
+            q2.append(Event(), ('*',), 0)
+            q2.append(Event(), ('*',), 0)
+            key = getattr(q2, _deque_attr(q2)[0])[-1][1]
+            names = list(getattr(Q, '__slots__', ())) + list(getattr(q2, '__dict__', {}))
+            cands = [n for n in names if type(getattr(q2, n, None)) is int and getattr(q2, n) == key]
+            if len(cands) == 1:
+                inner = Q.__dict__.get(cands[0])
+                setattr(Q, cands[0], Tracked(cands[0], _ctr_read, _ctr_write,
+                                             inner if hasattr(inner, '__set__') else None))
+                COUNTER[0] = cands[0]
+        except Exception:
+            COUNTER[0] = None
+    # calibration: how many times does reduce_time_left(0) read .handler on its way to resume()?
+    class _Waiter:
+        resumed = 0
+
+        def resume(self):
+            _Waiter.resumed += 1
+
+        def on(self):
+            pass
+    try:
+        g = G(SLock(), -1)
+        if '_c03__time_left' not in g.__dict__ and G.__dict__['_time_left'].inner is None:
+            MISSING.append('generate_events._time_left is not set by the constructor')
+        g.handler = _Waiter().on
+        CALIB = [0]
+        g.reduce_time_left(0)
+        HD_READS[0] = CALIB[0]
+        CALIB = None
+        if _Waiter.resumed != 1 or HD_READS[0] < 1:
+            MISSING.append('reduce_time_left(0) does not reach resume() through .handler (reads=%d, resumed=%d)'
+                           % (HD_READS[0], _Waiter.resumed))
+    except Exception as e:
+        CALIB = None
+        MISSING.append('calibration of reduce_time_left failed: %r' % (e,))
 
 
-def on_line(code, lineno):
-    s = CUR
-    if s is None or s.free:
-        return
-    c = s.ctl.get(threading.get_ident())
-    if c is None:
-        return
-    fn = LINEMAP.get((code, lineno))
-    lab = None
-    if fn is not None:
-        lab = fn(s, sys._getframe(1))
-        if lab is not None and lab[0] == 'RGet':
-            # a multi-line statement may report its line twice: one read per call
-            f = sys._getframe(1)
-            if getattr(c, 'rget_frame', None) is f:
-                lab = None
-            else:
-                c.rget_frame = f
-    if s.park('line'):
-        if lab is not None:
-            s.emit(lab)
+def instrument_manager(m):
+    """replace the deque of this manager's queue object by the reporting deque"""
+    q = m._queue
+    names = _deque_attr(q)
+    if len(names) == 1:
+        setattr(q, names[0], TDeque(getattr(q, names[0])))
 
 
 # ------------------------------------------------------------------------------------------- one run
@@ -491,6 +704,7 @@ def run_case(case):
     s.ocount = 0
     s.abort = False
     m = cmanager.Manager()
+    instrument_manager(m)
     Sink().register(m)
     if case.get('timer'):
         Ticker().register(m)
@@ -700,9 +914,9 @@ def coq_ev(e):
 
 
 SIMPLE = {'Count': 'ACount', 'AppO': 'AAppO', 'AppF': 'AAppF', 'Snap': 'ASnap', 'Move': 'AMove', 'SetH': 'ASetH',
-          'Clr': 'AClr', 'Acq': 'AAcq', 'Rel': 'ARel', 'ArmTest': 'AArmTest', 'RTest': 'ARTest', 'RWrite': 'ARWrite',
-          'RHd': 'ARHd', 'RGet': 'ARGet', 'Sig': 'ASig', 'WTest': 'AWTest', 'Clear': 'AClear', 'WTestPos': 'AWTestPos',
-          'WRdTl': 'AWRdTl', 'WTestNeg': 'AWTestNeg', 'PRead': 'APRead', 'PipeRd': 'APipeRd', 'FReadH': 'AFReadH',
+          'Clr': 'AClr', 'Acq': 'AAcq', 'Rel': 'ARel', 'ArmTest': 'AArmTest', 'RdTl': 'ARdTl', 'RWrite': 'ARWrite',
+          'RHd': 'ARHd', 'RGet': 'ARGet', 'Sig': 'ASig', 'Clear': 'AClear', 
+          'PipeRd': 'APipeRd', 'FReadH': 'AFReadH',
           'Ret': 'ARet'}
 
 
@@ -734,20 +948,22 @@ class C03(Prop):
     imports = ['Model.Wake', 'Model.WakeObs']
     quick_n = 900
     thorough_n = 4000
-    rule = ('real Manager.run() thread + 1-3 real firing threads (1-3 events each) stepped line by line under a '
-            'scheduler: fallback generator / Select / Poll / EPoll waiter, each without and with a timer-like '
-            'generate_events handler (untimed and timed wait/select); schedules: systematic sweeps for all 8 '
-            'configurations (a whole fire() after every visible loop action of start-up + first tick and of the tick '
-            'processing the first wake-up; at every source line / lock / Event / select step of the generate_events '
-            'handling), sampled windows, sticky runs with 0-3 pre-emptions in all thread orders, random walks with '
-            'stickiness 0.5-0.95. non-trivial = a firing-thread step is directly followed by a loop step that is not '
-            'the return of its idle wait')
+    rule = ('real Manager.run() thread + 1-3 real firing threads (1-3 events each), every thread parked just before '
+            'each shared access (hooks on _currently_handling, generate_events._time_left/handler, the queue object, '
+            'RLock/Event/select/pipe doubles) under a scheduler: fallback generator / Select / Poll / EPoll waiter, each '
+            'without and with a timer-like generate_events handler (untimed and timed wait/select); schedules: systematic '
+            'sweeps for all 8 configurations (a whole fire() before every access of the loop thread in start-up + first '
+            'tick and in the tick processing the first wake-up; a fire() cut before each of its own accesses x every '
+            'loop position of the generate_events handling), sampled windows, sticky runs with 0-3 pre-emptions in all '
+            'thread orders, random walks with stickiness 0.5-0.95. non-trivial = a firing-thread step is directly '
+            'followed by a loop step that is not the return of its idle wait')
     trusted_base = ['hand-written protocol model Model/Wake.v tied to /repo by replaying every observed trace (accepts)',
-                    'scheduler, lock/Event/select/pipe doubles and source-line anchors in harness/c03.py',
-                    'CPython executes one source line of the instrumented functions without a thread switch '
-                    'that matters (at most one shared access per line, GIL)']
-    assumptions = ['pre-emption at source-line granularity of the instrumented functions plus every lock/Event/select/pipe '
-                   'operation; sub-line (bytecode) interleavings are not explored',
+                    'scheduler, access hooks (data descriptors / wrappers installed on the classes) and the '
+                    'lock/Event/select/pipe doubles in harness/c03.py',
+                    'code between two hooked accesses is thread-local (a shared access through an un-hooked variable is '
+                    'neither a pre-emption point nor an action)']
+    assumptions = ['pre-emption exactly before each hooked shared access and every lock/Event/select/pipe operation; '
+                   'the read and write of `counter += 1` form one step',
                    'select/poll/epoll are consulted with timeout 0 by the double; a blocking call is a parked thread',
                    'all events have equal priority']
 
@@ -764,12 +980,17 @@ class C03(Prop):
         o = run_case({'mode': mode, 'timer': timer, 'threads': [2], 'tmo': 0, 'sched': {
             'kind': 'seg', 'order': [0, 1], 'segs': [[0, -1], [1, -2], [0, -1], [1, -1], [0, -1]]}})
         tr, ts = o['trace'], o['tsteps']
-        k1 = next(i for i, x in enumerate(tr) if x[0] == 1)                       # first fire starts
-        k2 = next(i for i in range(k1, len(tr)) if tr[i][0] == 0)                  # loop woken
-        k3 = next(i for i in range(k2, len(tr)) if tr[i][0] == 1)                  # second fire starts
-        kg = next(i for i in range(k2, k3) if tr[i][1][0] == 'Call' and tr[i][1][1][0] == 'G')
-        return {'n1': k1, 'n2': k3 - k2, 'jg': kg - k2 + 1, 'rg': ts[k3] - ts[kg], 'r1': ts[k1],
-                'r2': ts[k3] - ts[k2] + 1}
+        try:
+            k1 = next(i for i, x in enumerate(tr) if x[0] == 1)                       # first fire starts
+            k2 = next(i for i in range(k1, len(tr)) if tr[i][0] == 0)                  # loop woken
+            k3 = next(i for i in range(k2, len(tr)) if tr[i][0] == 1)                  # second fire starts
+            kg = next(i for i in range(k2, k3) if tr[i][1][0] == 'Call' and tr[i][1][1][0] == 'G')
+            return {'n1': k1, 'n2': k3 - k2, 'jg': kg - k2 + 1, 'rg': ts[k3] - ts[kg], 'r1': ts[k1],
+                    'r2': ts[k3] - ts[k2] + 1}
+        except (StopIteration, IndexError):
+            # the undisturbed run itself does not behave (e.g. the loop is never woken): default ranges; the
+            # undisturbed schedule is one of the sweep positions, so the oracle reports it
+            return {'n1': 30, 'n2': 34, 'jg': 14, 'rg': 18, 'r1': 32, 'r2': 36}
 
     def generate(self, rng, n, tier, with_sweep=True):
         cases = []
@@ -785,20 +1006,21 @@ class C03(Prop):
         for mode, timer in cfgs:
             z = self.measure(mode, timer)
             sizes['%s%s' % (mode, '+timer' if timer else '')] = z
-            for j in range(0, z['n1'] + 1):        # after the j-th visible action of start-up / first tick / first park
-                sw(mode, timer, [[0, j, 'v'], [1, -2], [0, -1], [1, -1], [0, -1]])
-            for j in range(0, z['n2'] + 1):        # ... of the tick that processes the first wake-up
-                sw(mode, timer, [[0, -1], [1, -2], [0, j, 'v'], [1, -2], [0, -1], [1, -1], [0, -1]])
-            for r in range(0, z['rg'] + 2):        # every LINE of the generate_events handling of that tick (warm caches)
-                sw(mode, timer, [[0, -1], [1, -2], [0, z['jg'], 'v'], [0, r], [1, -2], [0, -1], [1, -1], [0, -1]])
+            # a whole fire() placed before every shared access / synchronisation step of the loop thread:
+            for r in range(0, z['r1'] + 2):        # start-up, first tick, first park
+                sw(mode, timer, [[0, r], [1, -2], [0, -1], [1, -1], [0, -1]])
+            for r in range(0, z['r2'] + 2):        # the tick that processes the first wake-up
+                sw(mode, timer, [[0, -1], [1, -2], [0, r], [1, -2], [0, -1], [1, -1], [0, -1]])
+            # a fire() cut in two before each of its own accesses, while the loop handles generate_events; the loop
+            # then runs until it parks, then the fire() completes
+            if tier == 'thorough' or (mode, timer) in (('fallback', False), ('fallback', True), ('select', False)):
+                for r in range(0, z['rg'] + 2):
+                    for i in range(1, 14):
+                        sw(mode, timer, [[0, -1], [1, -2], [0, z['jg'], 'v'], [0, r], [1, i], [0, -1], [1, -1], [0, -1]])
             if tier == 'thorough':
-                for r in range(0, z['r1'] + 2):    # every line of start-up and first tick
-                    sw(mode, timer, [[0, r], [1, -2], [0, -1], [1, -1], [0, -1]])
-                for r in range(0, z['r2'] + 2):    # every line of the second tick
-                    sw(mode, timer, [[0, -1], [1, -2], [0, r], [1, -2], [0, -1], [1, -1], [0, -1]])
-                for i in range(1, 14):             # a fire() cut in two at each of its visible actions
-                    for j in range(0, z['n2'] + 1):
-                        sw(mode, timer, [[0, -1], [1, -2], [0, j, 'v'], [1, i, 'v'], [0, -1], [1, -1], [0, -1]])
+                for r in range(0, z['r2'] + 2):    # the same cut at every position of the second tick, loop continues freely
+                    for i in range(1, 15):
+                        sw(mode, timer, [[0, -1], [1, -2], [0, r], [1, i], [0, rng.randint(0, 12)], [1, -1], [0, -1]])
         if with_sweep:
             self.stats['sweep_sizes'] = sizes
             self.stats['sweep_cases'] = len(sweep)
